@@ -1,5 +1,7 @@
 import BSModel.Driver.Util
 import BSModel.Model.Search
+import BSModel.Model.SearchHeap
+import BSModel.Model.Css
 /-! Line protocol for C10 (see harness/c10.py for the encoder).
 
 `find <variant> <tree> <start> <family> <form> <limit> <name> <attrs> <string> <kwargs> <re> <ft> <fs>`
@@ -11,7 +13,7 @@ import BSModel.Model.Search
 * criteria: `n` `s.<cps>` `y.<cps>` `b.<0|1>` `f.<i>` `r.<i>` `o.<cps>.<0|1>` `L<item>|<item>…` (item `N` = nested list)
 * tables: `re` = `<i>:<cps>:<0|1>;…`, `ft` = `<i>:<tag id>:<0|1>;…`, `fs` = `<i>:<cps|~>:<0|1>;…` -/
 namespace BS.Drv.C10
-open BS.Search BS.Drv
+open BS.Search BS.Drv BS.SearchHeap
 
 def pstr (s : String) : PStr := cps s
 
@@ -112,7 +114,100 @@ def parseSimple (s : String) : Option Simple :=
   | ["eq", a, v] => some (.attrEq (pstr a) (pstr v))
   | _ => none
 
+/-! `findh <variant> <heap> <start> <family> <form all|one> <limit> <name> <attrs> <string> <kwargs> <re> <ft> <fs>`:
+the same search on the pointer heap. heap = `;`-separated
+`<id>:<kind g|t|s|p>:<parent>:<ps>:<ns>:<pe>:<ne>:<kids a+b|->:<name or text cps>:<pfx|~>:<attrs>` (pointers `~` = None),
+exactly the six link fields and `contents` observed on the real objects. -/
+structure HNode where
+  id : Nat
+  kind : BS.Heap.Kind
+  parent : Option Nat
+  ps : Option Nat
+  ns : Option Nat
+  pe : Option Nat
+  ne : Option Nat
+  kids : List Nat
+  val : PStr
+  pfx : Option PStr
+  attrs : List (PStr × AttrVal)
+
+def optNat (s : String) : Option Nat := if s == "~" then none else s.toNat?
+
+def parseHNode (t : String) : Option HNode :=
+  match t.splitOn ":" with
+  | [i, k, pa, ps, ns, pe, ne, ks, vl, pf, ats] =>
+    some { id := i.toNat!, kind := (if k == "g" then .soup else if k == "t" then .tag else if k == "p" then .pre else .str),
+           parent := optNat pa, ps := optNat ps, ns := optNat ns, pe := optNat pe, ne := optNat ne,
+           kids := natList "+" ks, val := pstr vl, pfx := (if pf == "~" then none else some (pstr pf)),
+           attrs := parseAttrs ats }
+  | _ => none
+
+def mkHeap (ns : List HNode) : BS.Heap.Heap × Labels :=
+  let get : Nat → Option HNode := fun i => ns.find? (·.id == i)
+  ({ parent := fun i => (get i).bind (·.parent), ps := fun i => (get i).bind (·.ps), ns := fun i => (get i).bind (·.ns),
+     pe := fun i => (get i).bind (·.pe), ne := fun i => (get i).bind (·.ne),
+     kids := fun i => ((get i).map (·.kids)).getD [],
+     kind := fun i => ((get i).map (·.kind)).getD .str,
+     val := fun i => ((get i).map (·.val)).getD [],
+     next := ns.length, cap := ns.length + 1 },
+   { name := fun i => ((get i).map (·.val)).getD [],
+     pfx := fun i => (get i).bind (·.pfx),
+     attrs := fun i => ((get i).map (·.attrs)).getD [] })
+
+def handleH : List String → String
+  | [var, heap, start, fam, form, limit, name, attrs, string, kw, re, ft, fs] =>
+    match parseFam fam with
+    | some f =>
+      let nodes := (heap.splitOn ";").filterMap parseHNode
+      let (h, L) := mkHeap nodes
+      let v := if var == "u" then Variant.unrepaired else if var == "p" then Variant.proposed else Variant.repaired
+      let O := parseOracle re ft fs
+      let q : Query := { name := parseCrit name, attrs := parseAttrsArg attrs, string := parseCrit string,
+                         kwargs := parsePairs kw }
+      let st := start.toNat!
+      if form == "all" then
+        match findAllH O v h L st f q (parseLimit limit) with
+        | .ok r => s!"{showIds r.1} | {showCalls r.2}"
+        | .error _ => "err"
+      else if form == "one" then
+        match findOneH O v h L st f q with
+        | .ok r => s!"{match r.1 with | some e => toString e.id | none => "none"} | {showCalls r.2}"
+        | .error _ => "err"
+      else "bad-op"
+    | none => "bad-op"
+  | _ => "bad-op"
+
+/-! `cssd <entry> <sel s|c> <ns none|given> <limit unset|none|N> <flags unset|N> <extra 0|1>`: the soupsieve call the
+entry point makes (BS.Css.dispatch), canonically. -/
+def handleCss : List String → String
+  | [entry, sel, ns, limit, flags, extra] =>
+    let e? : Option BS.Css.Entry := match entry with
+      | "tag.select" => some .tagSelect | "tag.select_one" => some .tagSelectOne
+      | "css.select" => some .cssSelect | "css.select_one" => some .cssSelectOne | "css.iselect" => some .cssIselect
+      | "css.closest" => some .cssClosest | "css.match" => some .cssMatch | "css.filter" => some .cssFilter
+      | "css.compile" => some .cssCompile | _ => none
+    match e? with
+    | none => "bad-op"
+    | some e =>
+      let a : BS.Css.Args :=
+        { sel := if sel == "c" then .compiled 0 else .str 0
+          ns := if ns == "given" then .given 0 else .none
+          limit := if limit == "unset" then .unset else if limit == "none" then .none else .n limit.toNat!
+          flags := if flags == "unset" then none else flags.toNat?
+          extra := extra == "1" }
+      let (c, wrap) := BS.Css.dispatch e 1 a
+      let fn := match c.fn with
+        | .select => "select" | .selectOne => "select_one" | .iselect => "iselect" | .closest => "closest"
+        | .match_ => "match" | .filter => "filter" | .compile => "compile"
+      let selS := match c.sel with | .str _ => "s" | .compiled _ => "c"
+      let nsS := match c.ns with | .none => "none" | .given _ => "given" | .tagNamespaces => "tagns"
+      let limS := match c.limit with | .notTaken => "-" | .none => "~" | .n k => toString k
+      s!"fn={fn} sel={selS} tag={bit c.tag.isSome} ns={nsS} limit={limS} flags={c.flags} extra={bit c.extra} wrap={bit wrap}"
+  | _ => "bad-op"
+
 def handle : List String → String
+  | "findh" :: rest => handleH rest
+  | "cssd" :: rest => handleCss rest
   | ["find", var, tree, start, fam, form, limit, name, attrs, string, kw, re, ft, fs] =>
     match parseTree tree, parseFam fam with
     | some root, some f =>
